@@ -9,6 +9,7 @@
 //!       1 violation (a line `VIOLATION property=<id> replay=<path>` is printed)
 //!       2 machinery error (never a verdict)
 
+mod audit;
 mod checks;
 mod ev;
 mod inproc;
